@@ -216,6 +216,9 @@ def check(run: Run) -> None:
     init = ed.methods.get("__init__")
     if init is None:
         raise AnalysisError("anchor vanished: EventDataset.__init__")
+    from ..lib import view as _view_i
+
+    init = _view_i(m, init)  # the attributes may be attached by a loop over a literal table of (name, value) pairs
     fi_a = ctx.analysis(init)
     sup = [c for c in calls_in(init) if isinstance(c.func, ast.Attribute) and c.func.attr == "__init__"]
     run.check(len(sup) == 1, "C12.R4", init, init.node, "EventDataset.__init__ calls ObjectStream.__init__ once", f"{len(sup)} base __init__ calls")
@@ -231,7 +234,8 @@ def check(run: Run) -> None:
     # ---------------- R8: execution entry points are defined once, on ObjectStream
     run.rule("C12.R8", "_get_executor / value_async / value are defined on ObjectStream only (no subclass override changes which executor runs)")
     for name in ("_get_executor", "value_async", "value"):
-        owners = [c.qual for c in m.classes.values() if name in c.methods or name in c.class_assigns]
+        # (classes of the stream hierarchy: a private record with a field called `value` is not an override)
+        owners = [c.qual for c in m.classes.values() if (name in c.methods or name in c.class_assigns) and (c is os_cls or m.is_subclass_of(c, {os_cls.name, os_cls.qual.replace(":", ".")}) or any(b_ is os_cls for b_ in m.mro(c)))]
         run.check(owners == [os_cls.qual], "C12.R8", os_cls.methods.get(name) or va, os_cls.node, f"{name} defined on ObjectStream only", f"{name} is (re)defined in {[o.split(':')[-1] for o in owners if o != os_cls.qual]}: derived streams are shallow copies of the object they were derived from, so an override on a dataset class runs the executor of a stale copy / bypasses the routing of ObjectStream._get_executor")
 
     # ---------------- R7: the root node (with its executor and dataset object) is shared, never cloned
@@ -275,11 +279,15 @@ def check(run: Run) -> None:
     if len(finders) != 1 or "visit_Call" not in finders[0].methods:
         raise AnalysisError("find_EventDataset no longer contains one visitor class with visit_Call")
     fc = finders[0]
-    vc = fc.methods["visit_Call"]
+    from ..lib import view as _view6
+
+    vc = _view6(m, fc.methods["visit_Call"])  # the refusals may be made by private _require_ helpers
+    fe = _view6(m, fe)
     fv = ctx.analysis(vc)
     nodep = ("param", vc.pos_params[1])
     selfv = ("param", vc.pos_params[0])
     found_ret = 0
+    root_attrs = set()
     for s, n in fv.returns():
         t = strip_sites(fv.term_of(s.value, n)) if s.value is not None else ("const", None)
         if t == ("gvisit", nodep):
@@ -290,8 +298,19 @@ def check(run: Run) -> None:
         is_name = fx.isinstance_of(("attr", nodep, "func"), {"ast.Name"})
         if names == {"EventDataset"} and is_name:
             found_ret += 1
-            stores = [x for x in own_nodes(vc) if isinstance(x, ast.Assign) and any(isinstance(tg, ast.Attribute) and tg.attr == "ds" for tg in x.targets)]
-            second = bool(stores) and all(Facts(fv, x).compare_const(("attr", selfv, "ds"), [ast.Is], None) for x in stores)
+            # where the root is recorded: self.<attr> = node, or self.<attr>.append(node); only when nothing was recorded yet
+            from ..lib import term_known_empty
+
+            stores = []
+            for x in own_nodes(vc):
+                if isinstance(x, ast.Assign) and len(x.targets) == 1 and isinstance(x.targets[0], ast.Attribute) and fv.cfg.has_node(x) and strip_sites(fv.term_of(x.targets[0].value)) == selfv and strip_sites(fv.term_of(x.value)) == nodep:
+                    stores.append((x, ("attr", selfv, x.targets[0].attr), "scalar"))
+                if isinstance(x, ast.Call) and isinstance(x.func, ast.Attribute) and x.func.attr == "append" and len(x.args) == 1 and fv.cfg.has_node(x) and strip_sites(fv.term_of(x.args[0])) == nodep:
+                    rt_ = strip_sites(fv.term_of(x.func.value))
+                    if rt_[0] == "attr" and rt_[1] == selfv:
+                        stores.append((x, rt_, "list"))
+            root_attrs.update(t_[2] for _x, t_, _k in stores)
+            second = bool(stores) and all((Facts(fv, x).compare_const(t_, [ast.Is], None) if k_ == "scalar" else term_known_empty(fv, Facts(fv, x).atoms, t_) is True) for x, t_, k_ in stores)
             run.check(second, "C12.R6", vc, s, "root recorded only if none was recorded before (else raise)", "a second EventDataset root does not raise")
             continue
         run.fail("C12.R6", vc, s, f"a call that is not the EventDataset root is not fully traversed (returns {show(t)[:80]}): a second root in another argument or inside a lambda is never seen", "return self.generic_visit(node)", show(t))
@@ -305,7 +324,12 @@ def check(run: Run) -> None:
     for s, n in ff.returns():
         fx = Facts(ff, s)
         rt_ = strip_sites(ff.term_of(s.value, n)) if s.value is not None else ("const", None)
-        ok = rt_[0] == "attr" and rt_[2] == "ds" and fx.compare_const(rt_, [ast.IsNot], None)
+        ok = rt_[0] == "attr" and rt_[2] in root_attrs and fx.compare_const(rt_, [ast.IsNot], None)
+        if not ok and rt_[0] == "index" and rt_[2] == 0 and rt_[1][0] == "attr" and rt_[1][2] in root_attrs:
+            # the list form: the first recorded root, known to exist
+            from ..lib import term_known_empty as _tke
+
+            ok = _tke(ff, fx.atoms, rt_[1]) is False
         run.check(ok, "C12.R6", fe, s, "find_EventDataset raises when no root was found", "find_EventDataset may return None when the query has no root")
     visits = [c for c in calls_in(fe) if isinstance(c.func, ast.Attribute) and c.func.attr == "visit" and c.args and strip_sites(ff.term_of(c.args[0])) == ("param", fe.pos_params[0])]
     run.check(len(visits) == 1, "C12.R6", fe, fe.node, "the finder visits the whole query", "the finder is not applied to the query argument")
